@@ -1,7 +1,7 @@
 (** Correspondence runner for C06: ties Model/QueryDoc.v (documented grammar, printer, meaning) and
     Model/Parser.v to the implementation's observed behaviour.  No proofs. *)
 From ZV Require Import Lib.Base Model.Query Generated.ParserTables Model.Parser Model.QueryDoc.
-From ZV Require Model.Regex Model.RegexCase.
+From ZV Require Model.Regex Model.RegexCase Model.RegexLit.
 Open Scope N_scope.
 
 Definition rq_d (rq : str -> rqres) (t : str) : rqres_d :=
@@ -21,13 +21,25 @@ Fixpoint has_regex_field (e : dexpr) : bool :=
             query.Parse's outcome on that string).  The parser model decides case:auto with the model of
     LowerRegexp on the tree ([t_auto] = re_auto), the documented meaning with the documented rule
     ([t_upper] = has_upper_re: an upper-case letter at any position of the tree). *)
-Definition c06case := (dquery * str * oracle_table * list (str * Regex.re) * outcome Q)%type.
+Definition c06case := (dquery * str * oracle_table * list (str * Regex.re) * list (str * Regex.re) * outcome Q)%type.
+
+(** literal detection (round 3): [lits] maps every pattern text of the query that regexp/syntax accepts to its
+    optimized syntax tree (query.Regexp's own tree when RegexpQuery returned a Regexp, otherwise
+    OptimizeRegexp(syntax.Parse(text))); RegexpQuery's answer must be the model's decision on that tree -
+    a Substring with the UTF-8 bytes of the runes iff the tree is a literal without FoldCase *)
+Definition lit_ok (tab : oracle_table) (e : str * Regex.re) : bool :=
+  match t_rq tab (fst e), RegexLit.shape_pattern (RegexLit.rq_shape_of (snd e)) with
+  | RQLit p, Some p' => str_eqb p p'
+  | RQRx _, None => true
+  | _, _ => false
+  end.
 
 Definition t_upper (t : list (str * Regex.re)) (k : str) : bool :=
   match lookup k t with Some a => RegexCase.has_upper_re a | None => false end.
 
 Definition c06_ok (c : c06case) : bool :=
-  let '(dq, s, tab, autos, gres) := c in
+  let '(dq, s, tab, autos, lits, gres) := c in
+  forallb (lit_ok tab) lits &&                                                          (* literal detection *)
   str_eqb (render dq) s &&                                                              (* same printer *)
   outcome_q_eqb (parse (t_rq tab) (t_auto autos) (t_compile tab) (t_lang tab) s) gres && (* model parser = Parse *)
   (existsb (existsb has_regex_field) dq ||
